@@ -23,6 +23,15 @@ for d in sorted(glob.glob("/verif/seeded/C*")):
                 by += ("%s: %s; " % (c, v.get("first", "")[:110].replace("|", "/")))
             elif cur != "caught":
                 cur = v["verdict"]
+    if cur == "?":
+        # no entry in RESULTS.json (rounds whose last verdicts were recorded per seed by tools/tryseed.py): the latest
+        # verdicts kept in the seed's own meta.json
+        for k, v in (m.get("our_checks") or {}).items():
+            if v.get("verdict") == "caught":
+                cur = "caught"
+                by += ("%s: %s; " % (k.split("_")[1], v.get("first", "")[:110].replace("|", "/")))
+            elif cur != "caught":
+                cur = v.get("verdict", "?")
     nfirst[first] = nfirst.get(first, 0) + 1
     ncur[cur] = ncur.get(cur, 0) + 1
     rows.append("| %s | %s | %s | %s | %s | %s |" % (name, (m.get("title") or m.get("what_it_breaks") or "")[:140].replace("|", "/").replace("\n", " "),
